@@ -142,3 +142,19 @@ def op_resolve(c):
         n += 1
     out[1] = n
     return out
+
+
+def op_freelocal(c):
+    """c = {file}: the local / cell / free operands xdis resolves in the function g of tools/harness/oracle_freelocal.py's module"""
+    from xdis.load import load_module
+    from xdis.disasm import get_opcode
+    from xdis.bytecode import Bytecode
+    t = load_module(c["file"])
+    opc = get_opcode(t[0], t[4])
+    outer = [k for k in t[3].co_consts if hasattr(k, "co_code")][0]
+    g = [k for k in outer.co_consts if hasattr(k, "co_code") and k.co_name == "g"][0]
+    rows = []
+    for i in Bytecode(g, opc):
+        if i.opname.startswith(("LOAD_FAST", "STORE_FAST", "LOAD_DEREF", "STORE_DEREF", "MAKE_CELL", "LOAD_CLOSURE", "DELETE_FAST", "LOAD_FAST_AND_CLEAR")):
+            rows.append([i.offset, i.opname, i.argval if isinstance(i.argval, (str, int)) else list(i.argval)])
+    return rows
